@@ -16,6 +16,15 @@ let () = run_table [
   "der_seq2", (function [r; s] -> hex_of_bytes_strict (der_seq2 (z_of_hexnum r) (z_of_hexnum s)) | _ -> failwith "args");
   "eddsa_from_signer", (function [d] -> pr_opt (fun (r, s) -> hexnum_of_z r ^ " " ^ hexnum_of_z s) (eddsa_from_signer (bytes_of_hex d)) | _ -> failwith "args");
   "eddsa_sig", (function [r; s] -> hex_of_bytes_strict (eddsa_sig (z_of_hexnum r) (z_of_hexnum s)) | _ -> failwith "args");
+  (* the signer model: sign_body t pk h <hashed subpackets> <unhashed subpackets> <priv handle> <subject...>;
+     subpackets as type:crit:bodyhex joined by ','  ("-" for none); digest and signing primitive answered by the oracle *)
+  "sign_body", (function t :: pk :: h :: hs :: us :: priv :: s ->
+      let sp x = if x = "-" then [] else List.map (fun it -> match String.split_on_char ':' it with
+                   | [ty; c; b] -> { sp_type = z_of_hexnum ty; sp_crit = (c = "1"); sp_body = bytes_of_hex b } | _ -> failwith "subpacket") (String.split_on_char ',' x) in
+      let dg hh d = oracle_bytes "digest" [[hh]; d] in
+      let sg p d hh = oracle_bytes "pk_sign" [p; d; [hh]] in
+      pr_opt hex_of_bytes_strict (sign_body dg sg (z_of_hexnum t) (z_of_hexnum pk) (z_of_hexnum h) (sp hs) (sp us) (bytes_of_hex priv) (subj_of s))
+    | _ -> failwith "args");
   "canon", (function [d] -> hex_of_bytes (canon (bytes_of_hex d)) ^ " " ^ hex_of_bytes (rfc_canon (bytes_of_hex d)) | _ -> failwith "args");
   (* body after the version octet -> type pkalg halg raw hash2 mpis hashed-subpackets unhashed-subpackets *)
   "sig_parse", (function [b] -> pr_opt (fun s ->
